@@ -14,7 +14,7 @@ RULE = ('programs x sequences of K<=2 (thorough: sampled K=3,4) requests from {p
 RULE += ('; also: outline workchains (pauses issued by steps and listeners), listeners that play and pause again within one notification')
 ASSUMPTIONS = ['programs depend only on their arguments (deterministic)', 'expected trace comes from an independent interpreter of the program text, '
                'cross-checked against the uninterrupted run of the real code']
-REQUIRED = ['own_status_store_runs', 'requests_under_foreign_loop', 'calls_on_terminated', 'step_entries', 'pause_live', 'play_while_paused', 'pause_phase/running-step', 'pause_phase/waiting-step', 'pause_phase/between-steps-or-unstarted',
+REQUIRED = ['reincarnations', 'own_status_store_runs', 'requests_under_foreign_loop', 'calls_on_terminated', 'step_entries', 'pause_live', 'play_while_paused', 'pause_phase/running-step', 'pause_phase/waiting-step', 'pause_phase/between-steps-or-unstarted',
             'trace_compared', 'outline_runs', 'outline_pause_live', 'outline_play_while_paused', 'outline_pause_mid_run']
 ALPHABET = [['pause', 'p'], ['pause', None], ['play'], ['resume', ['v']], ['resume', None]]
 BOUNDS = {'quick': 'basic program family, K<=2 exhaustive, K=3 exhaustive over {pause,play}', 'thorough': 'K=3 exhaustive on 4 key programs, + 40 random programs, K=3/4 sampled, listener-issued pause/play'}
@@ -75,6 +75,12 @@ def gen_cases(tier, seed):
                                   [{'at': 0, 'act': ['pause', 'p']}] + Q(['play']), [{'at': 0, 'act': ['pause', 'p']}] + Q(['play'], ['pause', 'p2'], ['play'])]):
             yield {'name': name, 'program': prog, 'plan': plans.uniq(plan, 'f%d' % j), 'drain': True, 'probe': False, 'barrage': False, 'listener': True,
                    'foreign_loop_outside': True}
+        # the instance is lost at a quiescent point (while it waits, or while it is paused) and the process goes on in a new instance
+        # recreated from a checkpoint taken there: pause / play around that are as transparent as without it
+        for j, plan in enumerate([Q(['reincarnate']), Q(['pause', 'p'], ['reincarnate'], ['play']), Q(['pause', 'p'], ['reincarnate'], ['resume', ['v']], ['play']),
+                                  Q(['reincarnate'], ['pause', 'p'], ['play']), [{'at': 1, 'act': ['pause', 'p']}] + Q(['reincarnate'], ['play']),
+                                  [{'at': 0, 'act': ['pause', 'p']}] + Q(['reincarnate'], ['play'], ['reincarnate']), Q(['pause', 'p'], ['reincarnate'], ['reincarnate'], ['play'])]):
+            yield {'name': name, 'program': prog, 'plan': plans.uniq(plan, 'i%d' % j), 'drain': True, 'probe': False, 'barrage': False, 'listener': True}
         # a process class that keeps its status message in a store of its own (the public accessors overridden): K <= 2 plans
         for j, plan in enumerate(list(plans.all_placements(n, ALPHABET, 1)) + [p for p in plans.all_placements(n, ALPHABET, 2) if _relevant(p)][::3]):
             yield {'name': name, 'program': prog, 'plan': plans.uniq(plan, 'o%d' % j), 'drain': True, 'probe': False, 'barrage': False, 'listener': True,
@@ -203,7 +209,8 @@ def run_case(case):
     rec = lifecycle.run_case(case)
     viol = judges.judge_c05(rec, check_trace=not case.get('no_trace'))
     obs = {'step_entries': 0, 'pause_live': 0, 'play_while_paused': 0, 'pause_phase': {}, 'trace_compared': 0, 'pause_returns': {},
-           'requests_under_foreign_loop': sum(1 for a in rec['acts'] if a.get('foreign_loop_current')), 'own_status_store_runs': int(bool(case.get('own_status')))}
+           'requests_under_foreign_loop': sum(1 for a in rec['acts'] if a.get('foreign_loop_current')), 'own_status_store_runs': int(bool(case.get('own_status'))),
+           'reincarnations': sum(1 for a in rec['acts'] if a['kind'] == 'reincarnate' and a['ret'] == ['value', None])}
     obs['step_entries'] = sum(1 for e in rec['events'] if e[0] == 'trace' and e[1] == 'enter')
     for a in rec['acts']:
         if a['kind'] == 'pause' and a['live_before']:
